@@ -147,6 +147,21 @@ def run(F, R, tier):
         R.ob("C07-c", "a package reached through an https registry URL is registered", not bad, "a path skips ensure_package for a package loaded via its https URL: later add_dependency for its modules would panic", where(ifs[0]))
         vis = [n for n in rp["_nodes"] if callee_matches(n, ["Builder::visit"])]
         R.ob("C07-c", "registration happens before the module is visited", bool(vis) and all(may_reach(F, ifs[0], v, scope=None) for v in vis), "ensure_package after visit", where(ifs[0]))
+    # ---------------- C07-e ------------------------------------------------
+    un = F.body("source::recommended_registry_package_url_to_nv")
+    sp = [n for n in un["_nodes"] if n.get("k") == "MethodCall" and n["name"] == "strip_prefix"]
+    ok = False
+    for s_ in sp:
+        r, a = peel_value(s_["recv"]), peel_value(s_["args"][0])
+        if r.get("k") == "MethodCall" and r["name"] == "as_str" and peel_value(r["recv"]).get("name") == "url" and a.get("k") == "MethodCall" and a["name"] == "as_str" and peel_value(a["recv"]).get("name") == "registry_url":
+            # and a failed prefix match ends the conversion
+            ok = s_["_p"].get("k") == "Try"
+    R.ob("C07-e", "a URL is attributed to a package only if the whole registry URL (scheme, authority, path) is its prefix", ok,
+         "recommended_registry_package_url_to_nv no longer requires `url.as_str()` to start with `registry_url.as_str()`: look-alike URLs (other scheme, port or user-info) would be attributed to the registry package and load without its manifest checksums", un["file"])
+    pu = F.body("source::recommended_registry_package_url")
+    j = [n for n in pu["_nodes"] if n.get("k") == "MethodCall" and (n.get("fn") or "").endswith("Url::join")]
+    R.ob("C07-e", "the package URL is the registry URL joined with name/version/", len(j) == 1 and peel_value(j[0]["recv"]).get("name") == "registry_url", "package url construction changed", pu["file"])
+
     # ---------------- C07-d ------------------------------------------------
     an = F.body("packages::PackageSpecifiers::add_nv")
     ins = [n for n in an["_nodes"] if n.get("k") == "MethodCall" and n["name"] == "insert" and peel(n["recv"]).get("field") == "package_reqs"]
